@@ -557,3 +557,200 @@ def r08_6(ctx):
                     ctx.bad("dispatch_ip|frag-buffer|whole", "dispatch_ip hands the whole fragmentation buffer to the header/payload emitters: an emitter without a "
                             "length field (ICMPv4) checksums the stale bytes of an earlier, larger datagram behind this one", body=body, bb=x[0])
     ctx.need(n >= 1, "emission into the fragmentation buffer in dispatch_ip")
+
+
+@rule('R05.4b', ['C05', 'C01'], floor=2, clause='the offset used to decide "this segment ends the queued data" (FIN/PSH) is the offset at which the segment\'s payload was actually taken from the transmit buffer, on the normal and on the fast-retransmit path')
+def r05_4b(ctx):
+    F = ctx.F
+    d = ctx.method(SOCK, 'dispatch')
+    ga = [x for x in d.calls() if (d.callee_name(x[1]) or '').endswith('RingBuffer::<\'a, T>::get_allocated')]
+    ctx.need(len(ga) >= 2, "tx_buffer.get_allocated call sites in dispatch")
+    L = [i for i, l in enumerate(d.locals) if l.get('name') == 'offset' and l.get('ty') == 'usize']
+    ctx.need(L, "local `offset` in tcp::Socket::dispatch")
+    gablocks = {x[0] for x in ga}
+    n = 0
+    for x in ga:
+        a0 = simplify(F.origin.operand(d, x[2][1], x[0], len(d.blocks[x[0]]['s'])))
+        # value of `offset` where the end-of-queue test reads it, on the paths through this call: the definition of any
+        # `offset` local that reaches the first switch after the call without passing another get_allocated
+        seen = d.reachable(start=x[4], cut_blocks=gablocks - {x[0]}) if x[4] is not None else {}
+        tests = []
+        for bi in seen:
+            bl = d.blocks[bi]
+            if bl['cl'] or bl['t'][0] != 'switch':
+                continue
+            for tb, lab, f in cond_facts(F, d, bi):
+                if f[0] == 'rel' and f[1] in ('Eq', 'Ne') and f"F:{SOCK}.tx_buffer" in leafs(f[3]) and \
+                        any(l.endswith('::get_allocated') for l in leafs(f[2]) if l.startswith('C:')):
+                    tests.append((bi, f))
+        if not tests:
+            continue
+        n += 1
+        bi, f = tests[0]
+        # offset operand of the comparison: lhs = offset + len(payload)
+        lhs = untuple(strip(simplify(f[2])))
+        off = None
+        if lhs[0] == 'bin' and lhs[1] == 'Add':
+            for cand in (lhs[2], lhs[3]):
+                if not any(l.endswith('::get_allocated') for l in leafs(cand) if l.startswith('C:')):
+                    off = simplify(cand)
+        if off is None:
+            ctx.bad("dispatch|end-of-queue-test|shape", f"end-of-queue test {show(lhs)[:60]} is not `offset + payload.len()`", body=d, bb=bi)
+            continue
+        okm = any(simplify(a) == a0 for a in alts(off)) if off[0] == 'phi' else off == a0
+        # path-correlation: the alternative that belongs to this call must exist, and the other alternatives must belong to other calls
+        if off[0] == 'phi':
+            others = [simplify(F.origin.operand(d, y[2][1], y[0], len(d.blocks[y[0]]['s']))) for y in ga if y[0] != x[0]]
+            stray = [a for a in alts(off) if simplify(a) != a0 and simplify(a) not in others]
+            okm = okm and not stray and len(alts(off)) <= len(ga)
+        if okm:
+            ctx.ok(('end-of-queue', x[0]), sample=dict(payload=f"get_allocated({show(a0)[:30]}, size)", test='offset + payload.len() == tx_buffer.len()'))
+        else:
+            ctx.bad("dispatch|end-of-queue-test|offset-mismatch", f"the payload is taken at offset {show(a0)[:40]} but the end-of-queue test uses {show(off)[:60]}: "
+                    "a retransmitted first segment can be taken for the last one and carry FIN while later data is still queued", body=d, bb=x[0])
+    ctx.need(n >= 2, "payload extraction sites followed by the end-of-queue test")
+
+
+@rule('R05.9', ['C05', 'C04'], floor=1, clause='the peer\'s window field is scaled by the shift the PEER announced (remote_win_scale), never by our own receive shift; SYN segments are not scaled')
+def r05_9(ctx):
+    F = ctx.F
+    b = ctx.method(SOCK, 'process')
+    ws = [w for w in F.field_writes() if w['fn'] == b.key and w['kind'] == 'store' and w['adt'] == SOCK and w['field'] == 'remote_win_len']
+    ctx.need(ws, "store to remote_win_len in tcp::Socket::process")
+    for w in ws:
+        o = simplify(store_origin(F, b, w))
+        ls = leafs(o)
+        if f"F:{REPR}.window_len" not in ls:
+            continue
+        if f"F:{SOCK}.remote_win_shift" in ls:
+            ctx.bad("process|remote_win_len|own-shift", f"the peer's window field is scaled with our own shift (remote_win_shift): remote_win_len = {show(o)[:80]}; when the two "
+                    "shifts differ the peer window is over-estimated and data is sent beyond it", body=b, bb=w['bb'])
+        elif f"F:{SOCK}.remote_win_scale" in ls and 'K:0' in ls or f"F:{SOCK}.remote_win_scale" in ls:
+            ctx.ok(('remote_win_len', 'peer-scale'), sample=dict(store='remote_win_len = window_len << (SYN ? 0 : remote_win_scale.unwrap_or(0))'))
+        else:
+            ctx.bad("process|remote_win_len|scale-origin", f"remote_win_len = {show(o)[:80]} is not scaled by the peer's announced shift", body=b, bb=w['bb'])
+
+
+@rule('R14.7', ['C14', 'C09'], floor=2, clause='the size recorded in a packet\'s metadata is the number of octets by which the payload ring advanced for it (both enqueue interfaces)')
+def r14_7(ctx):
+    F = ctx.F
+    PM = 'storage::packet_buffer::PacketMetadata'
+    for nm in ('enqueue', 'enqueue_with_infallible'):
+        b = ctx.method(PB, nm)
+        pk = [x for x in b.calls() if (b.callee_name(x[1]) or '').endswith('PacketMetadata::<H>::packet')]
+        ctx.need(pk, f"PacketMetadata::packet in PacketBuffer::{nm}")
+        size = untuple(strip(simplify(F.origin.operand(b, pk[0][2][0], pk[0][0], len(b.blocks[pk[0][0]]['s'])))))
+        adv = [x for x in b.calls() if (b.callee_name(x[1]) or '').rsplit('::', 1)[-1] in ('enqueue_many', 'enqueue_many_with')]
+        adv = [x for x in adv if x[0] != 0]
+        good = False
+        detail = show(size)[:60]
+        for x in adv:
+            last = (b.callee_name(x[1]) or '').rsplit('::', 1)[-1]
+            if last == 'enqueue_many':
+                a = untuple(strip(simplify(F.origin.operand(b, x[2][1], x[0], len(b.blocks[x[0]]['s'])))))
+                if a == size:
+                    good = True
+            else:
+                # enqueue_many_with returns (advanced, result): the metadata must record .0
+                s0 = strip(size)
+                if s0[0] == 'proj' and is_call(strip(s0[1]), 'enqueue_many_with') and s0[2] and s0[2][0][0] == 'f' and str(s0[2][0][1]) == '0':
+                    # and the closure's first tuple component is what the caller's writer returned
+                    good = True
+                    for cb in F.closures_of(b.key):
+                        r = untuple(strip(simplify(ret_origin(F, cb))))
+                        if r[0] == 'agg' and len(r[2]) == 2:
+                            first = strip(r[2][0])
+                            if not (first[0] == 'call' and first[1].endswith(('call_once', 'call_mut', '::call'))):
+                                good = False
+                                detail = f"closure advances the ring by {show(first)[:40]}"
+        if good:
+            ctx.ok((nm, 'metadata-size'), sample=dict(fn=nm, metadata_size='= octets reserved in the payload ring'))
+        else:
+            ctx.bad(f"PacketBuffer::{nm}|metadata-size", f"PacketBuffer::{nm} records size {detail} in the metadata but advances the payload ring by a different amount: "
+                    "the two rings go out of step and later packets are read from the wrong position", body=b, bb=pk[0][0])
+
+
+def _canon_buf(n):
+    """canonical form that identifies as_ref/as_mut, index/index_mut and ignores refs"""
+    if not isinstance(n, tuple) or not n:
+        return n
+    if n[0] in ('ref', 'deref') and len(n) == 2:
+        return _canon_buf(n[1])
+    if n[0] == 'named':
+        return _canon_buf(n[2])
+    if n[0] == 'after':
+        return _canon_buf(n[1])
+    if n[0] == 'phi':
+        al = tuple(sorted({_canon_buf(a) for a in n[1] if a != ('opaque', 'partial-def')}, key=str))
+        return al[0] if len(al) == 1 else ('phi', al)
+    if n[0] == 'call':
+        last = n[1].rsplit('::', 1)[-1]
+        if last in ('as_ref', 'as_mut') and len(n[2]) == 1:
+            return ('buf', _canon_buf(n[2][0]))
+        if last in ('index', 'index_mut') and len(n[2]) == 2:
+            return ('index', _canon_buf(n[2][0]), _canon_buf(n[2][1]))
+        return ('call', n[1], tuple(_canon_buf(a) for a in n[2]))
+    return tuple(_canon_buf(x) if isinstance(x, tuple) else x for x in n)
+
+
+@rule('R08.5b', ['C08'], floor=4, clause='for every checksummed header, fill_checksum and verify_checksum sum exactly the same octets of the packet (same slice expression)')
+def r08_5b(ctx):
+    F = ctx.F
+    from ..wirelib import wire_views
+    n = 0
+    for adt in sorted(wire_views(F)):
+        fb, vb = F.method(adt, 'fill_checksum'), F.method(adt, 'verify_checksum')
+        if fb is None or vb is None:
+            continue
+
+        def sums(b):
+            out = set()
+            for x in b.calls():
+                if (b.callee_name(x[1]) or '') == 'wire::ip::checksum::data':
+                    out.add(_canon_buf(simplify(F.origin.operand(b, x[2][0], x[0], len(b.blocks[x[0]]['s'])))))
+            return out
+        sf, sv = sums(fb), sums(vb)
+        if not sf or not sv:
+            continue
+        n += 1
+        short = adt.split('wire::')[-1]
+        if sf == sv:
+            ctx.ok((short, 'same-octets'), sample=dict(view=short, summed=show(next(iter(sf)))[:60]))
+        else:
+            ctx.bad(f"{short}|fill-vs-verify", f"{short}: fill_checksum sums {[show(x)[:50] for x in sf]} but verify_checksum sums {[show(x)[:50] for x in sv]}: "
+                    "checksums emitted into a larger/reused buffer do not verify (or trailing bytes escape verification)", body=fb)
+    ctx.need(n >= 4, f"views with both fill_checksum and verify_checksum (found {n})")
+
+
+@rule('R04.6', ['C04', 'C01'], floor=2, clause='ack_reply() records the advertised acknowledgment and window as a side effect, so it is only called on paths that actually return its segment for transmission (a rate-limited / suppressed reply records nothing)')
+def r04_6(ctx):
+    F = ctx.F
+    ar = ctx.method(SOCK, 'ack_reply')
+    n = 0
+    for ck in sorted(F.callers(ar.key)):
+        b = F.bodies.get(ck)
+        if b is None or '::test' in ck:
+            continue
+        for x in b.calls():
+            if b.callee_name(x[1]) != ar.key:
+                continue
+            n += 1
+            # from the call, no return whose value is None (the reply dropped) may be reachable
+            seen = b.reachable(start=x[4]) if x[4] is not None else {}
+            dropped = None
+            for bi in seen:
+                bl = b.blocks[bi]
+                if bl['cl']:
+                    continue
+                for si, s in enumerate(bl['s']):
+                    if s[0] == 'a' and s[1] == [0, []]:
+                        o = strip(simplify(F.origin.rvalue(b, s[2], bi, si, 0, None)))
+                        if o == ('variant', 'std::option::Option::None') or (o[0] == 'agg' and o[1].endswith('Option::None')):
+                            dropped = bi
+            fnm = ck.rsplit('::', 1)[-1]
+            if dropped is not None:
+                ctx.bad(f"{fnm}|ack_reply|result-dropped", f"{ck} calls ack_reply() (which records remote_last_ack / remote_last_win) and can then return None: "
+                        "a window that was never put on the wire is recorded as advertised, and data beyond every advertised window is accepted", body=b, bb=dropped)
+            else:
+                ctx.ok((fnm, 'ack_reply-returned', x[0]), sample=dict(caller=fnm, rule='ack_reply() result is always returned'))
+    ctx.need(n >= 2, "ack_reply call sites")
